@@ -20,7 +20,7 @@ LEVEL = "model_checking"
 RULE = ("E2: Context.shutdown() injected after every step of the default run (K=1) and of every one-deviation run (K=2; drop, "
         "duplicate, reorder) of sixteen busy scenarios (one next to a second bystander that is a server with a running handler and an observer; one with CON notifications acknowledged late; among them an observation whose iterating consumer task has been cancelled, an observation whose first notification is block-wise and observations whose "
         "consumer subscribes only after the shutdown), plain and with the loop stalling for 0.15 s / 3.5 s after the 1st..6th loop iteration "
-        "of the shutdown (timers due in between run late), plain also with a request submitted by another task after the 1st..4th loop iteration of the shutdown, followed by a full drain; distinct = distinct schedule")
+        "of the shutdown (timers due in between run late), plain also with a request submitted by another task after the 1st..4th loop iteration of the shutdown and with the application cancelling what it waits for in the same step, followed by a full drain; distinct = distinct schedule")
 ASSUMPTIONS = [
     "SHUTDOWN_TIMEOUT = 3 s (numbers/constants.py documentation); EXCHANGE_LIFETIME = 247 s",
     "the bystander context lives in the same loop and talks to its own peer",
@@ -272,7 +272,7 @@ class ShutScenario(NetScenario):
     def faults(self, st):
         if st.shut_at is None and st.script_pos > 0:
             return [("shutdown", 1)] + ([("shutdown/stall%d/%s" % (j, dt), 1) for j, dt in STALLS] if self.stalls else
-                                        [("shutdown/req%d" % j, 1) for j in (1, 2, 3, 4)])
+                                        [("shutdown/req%d" % j, 1) for j in (1, 2, 3, 4)] + [("shutdown/withdrawn", 1)])
         return []
 
     def apply_fault(self, st, label):
@@ -294,6 +294,14 @@ class ShutScenario(NetScenario):
         for n, f in st.pending_at_shut:
             f.add_done_callback(retry)
         st.shut_task = w.loop.create_task(st.v.ctx.shutdown())
+        if label.endswith("/withdrawn"):
+            # the application gives up on everything it is waiting for and shuts down in the same breath (`f.cancel(); await
+            # ctx.shutdown()` in one task step: the shutdown starts before the futures' done-callbacks have run).  What it has
+            # given up is no longer outstanding; the shutdown has to complete all the same.
+            for n, f in st.pending_at_shut:
+                f.cancel()
+            st.pending_at_shut = []
+            st.obs_alive_at_shut = False
         if "/req" in label:
             # another task of the application submits a request while the shutdown is under way (after its j-th loop iteration)
             for i in range(int(label.split("/req")[1])):
